@@ -1,0 +1,18 @@
+//go:build verif
+
+// Package verifx re-exports internal packages for the external verification
+// harness (an internal/ package cannot be imported from another module).
+// Build tag `verif` only; not part of the API.
+package verifx
+
+import (
+	"go/types"
+
+	"github.com/quasilyte/go-ruleguard/internal/xtypes"
+)
+
+// Identical is xtypes.Identical.
+func Identical(x, y types.Type) bool { return xtypes.Identical(x, y) }
+
+// Implements is xtypes.Implements.
+func Implements(v types.Type, iface *types.Interface) bool { return xtypes.Implements(v, iface) }
